@@ -249,12 +249,14 @@ class System:
             key = key.strip()
             value = value.strip()
 
+            # add the section if the config file (or an earlier option) has not created it
+            if not self._config_object.has_section(section):
+                self._config_object.add_section(section)
+
+            self._config_object.set(section, key, value)
             if not newobj:
-                self._config_object.set(section, key, value)
                 logger.debug("Existing config option set: %s.%s=%s", section, key, value)
             else:
-                self._config_object.add_section(section)
-                self._config_object.set(section, key, value)
                 logger.debug("New config option added: %s.%s=%s", section, key, value)
 
     def reload(self, case, **kwargs):
